@@ -17,6 +17,9 @@ from ..prog import AnalysisIncomplete
 from . import c02
 
 
+FIXTURES = ["hash_fx.c"]
+
+
 def key(fn, what):
     return "%s:%s" % (fn.name, what)
 
@@ -186,3 +189,9 @@ def run(ctx):
     nul = paths.guard_edges(fr_, lambda fn, cc, pol: (not pol) and paths.cond_atoms(fn, cc, True, subst=False)[0].endswith("->lextree"))
     ok = len(lt) >= 1 and len(frl) >= 1 and any("fsg_lextree_init(" in fr_.canon(s["rhs"], subst=False) for s in lt) and all(not fr_.cfg.path_exists((fr_.cfg.entry, -1), lambda e, s=s: e == s["node"], is_barrier=lambda e: e in frl, removed_edges=nul) for s in lt if "fsg_lextree_init(" in fr_.canon(s["rhs"], subst=False))
     ctx.check(d6, ok, key(fr_, "rebuild"), fr_.where(fr_.root), "the lexical tree is not released and rebuilt from the updated dictionary")
+
+    # a word is known, refused as duplicate or given its pronunciation through the dictionary's hash table: a
+    # comparator that accepts a stored key of another length confuses words that extend one another (seed C16-9)
+    from . import c20
+    from ..report import Only
+    c20.run(Only(ctx, ("GUARD.len-first",)))
